@@ -6,7 +6,7 @@ import common as C
 import tables as T
 
 SCOPE_CORE = re.compile(r"^diplomat_core::hir::(methods|types|defs|paths|lifetimes|ty_position|primitives)\b")
-EXCLUDE = re.compile(r"::tests?::|::test_|diplomat_tool::config::|diplomat_tool::gen$")
+EXCLUDE = re.compile(r"::tests?::|::test_|diplomat_tool::config::|^diplomat_tool::[a-z_0-9]+$")  # crate-root fns of the tool are the driver (paths, IO), not HIR consumers
 
 
 def in_scope(path):
@@ -99,7 +99,8 @@ def run(ck, facts):
 
     def loose(k_):
         fn_, en_, vs_ = k_.rsplit("/", 2)
-        return ("::".join(C.norm_path(fn_).split("::")[:2]), en_, vs_)
+        segs = C.norm_path(fn_).split("::")
+        return ("::".join(segs[:2]) if len(segs) > 2 else segs[0], en_, vs_)
     by_loose = {}
     for k_ in tri:
         by_loose.setdefault(loose(k_), []).append(k_)
@@ -180,9 +181,15 @@ def run(ck, facts):
                 found.setdefault(key, []).append(C.loc(f, n.get("ln")))
     if os.environ.get("VERIF_DUMP_UNWRAPS"):
         print("UNWRAPS", json.dumps({k: len(v) for k, v in found.items()}, indent=1, sort_keys=True))
+    BACKENDS_ = {"c", "cpp", "js", "dart", "kotlin", "nanobind", "demo_gen", "config", "hir", "ast"}
+
+    def modgroup(fn_):
+        segs = C.norm_path(fn_).split("::")
+        return "::".join(segs[:2]) if len(segs) > 2 and segs[1] in BACKENDS_ else segs[0]
+
     def loose_u(k_):
         fn_, rest = k_.split("/", 1)
-        return ("::".join(fn_.split("::")[:2]), rest)
+        return (modgroup(fn_), rest)
     by_loose_u = {}
     for k_ in usp:
         by_loose_u.setdefault(loose_u(k_), []).append(k_)
